@@ -90,7 +90,8 @@ CLAIMED['C15'] = {
             'a higher level yields a subsequence that keeps every line at or above it; JSON notes == text findings for table-known names (also for one name in two categories), one JSON document; '
             'the real main() with -j/-jj under symbolic -v/-b/-l prints exactly one JSON document and both forms parse to the same value; OutputBuffer keeps '
             'exactly the calls at or above the level.',
-    'note': 'Sub-clause NOT addressable by this technique and excluded from the claim: byte-identity under different PYTHONHASHSEED values (no symbolic model of CPython hashing). '
+    'note': 'Byte-identity under different hash seeds is decided through a model of what a seed can change - the iteration order of sets (every order for sets of <= 4 elements) - and a '
+            'difference is confirmed natively under real PYTHONHASHSEED values before it is reported; CPython string hashing itself is not modelled. '
             'Compact-vs-indented equality is checked on the concrete documents of each explored path (json library trusted). Colours disabled in harnesses.',
 }
 
